@@ -7,6 +7,8 @@ import SekaiProofs.Lemmas.Gov
 import Sekai.Gen.App
 import Sekai.Model.App
 import Sekai.Model.Upgrade
+import Sekai.Gen.Keys
+import SekaiProofs.Lemmas.Keys
 /-! # C06 — No reachable state or block can halt the chain  (partial: Go panics are a runtime notion)
 
 What a Lean model can carry: (1) the set of places that can panic inside block processing — explicit `panic`,
@@ -401,5 +403,13 @@ panics at start-up otherwise), and the zero-gas-meter decorator is in the ante c
 theorem block_wiring_complete :
     (Sekai.Gen.App.beginOrder.all (Sekai.App.once Sekai.Gen.App.endOrder) && Sekai.Gen.App.endOrder.all (Sekai.App.once Sekai.Gen.App.beginOrder) &&
      Sekai.App.once Sekai.Gen.App.anteChain "NewZeroGasMeterDecorator") = true := by decide +kernel
+
+/-! ### Key spaces of the stores this model keeps in separate maps (table `Gen.Keys`)
+
+The model keeps each record kind of a module in a field of its own; the module keeps them in ONE store under byte prefixes.
+No prefix extends another (checked on the regenerated table), so by `Sekai.Keys.keys_of_different_kinds_differ` a key of one
+kind is never a key of another kind. -/
+
+theorem upgrade_key_spaces_disjoint : Sekai.Keys.disjoint Sekai.Gen.Keys.stores "upgrade" = true := by decide +kernel
 
 end Sekai.Props.C06
